@@ -41,6 +41,9 @@ type Options struct {
 	ExtraSetup func(e *Env, n *centrifuge.Node)
 	// Users is the number of distinct user ids connections are spread over (default 2).
 	Users int
+	// Observer adds a connection (Env.Observer) that subscribes to every channel with
+	// PushJoinLeave before the plans start and stays until Finish.
+	Observer bool
 	// CalmConn0 disables every virtual delay inside connection 0's operations (needed
 	// when a check races against it by busy-waiting: a spinning goroutine keeps the
 	// virtual clock from advancing, so the raced operation must not sleep).
@@ -108,6 +111,7 @@ type Env struct {
 	Opt      Options
 	Channels []string
 	Conns    []*CConn
+	Observer *kit.Conn
 	byClient sync.Map // *centrifuge.Client -> *CConn
 	byTrans  sync.Map // *kit.RecTransport -> *CConn
 
@@ -237,6 +241,13 @@ func New(c *kit.Case, opt Options) *Env {
 			cl.OnSubscribe(func(ev centrifuge.SubscribeEvent, cb centrifuge.SubscribeCallback) {
 				e.record(CB{Conn: idx, Kind: "subscribe", Channel: ev.Channel})
 				rep := centrifuge.SubscribeReply{Options: e.SubOptions(ev.Channel)}
+				if cc == nil {
+					// the observer: receives join/leave, emits none, no presence
+					rep.Options = centrifuge.SubscribeOptions{PushJoinLeave: true}
+					if e.IsPositioned(ev.Channel) {
+						rep.Options.EnablePositioning = true
+					}
+				}
 				var d time.Duration
 				if cc != nil {
 					e.asyncMu.Lock()
@@ -358,6 +369,14 @@ func (e *Env) hook(point string, cl *centrifuge.Client, ch string) {
 // Run executes every plan (two lanes per connection) and then settles: waits past
 // the unsubscribe wait-gate timeout and until the bubble is quiescent.
 func (e *Env) Run() {
+	if e.Opt.Observer {
+		e.Observer = e.W.NewConn(e.Node, kit.TransportOpts{})
+		e.Observer.Connect(nil)
+		for _, ch := range e.Channels {
+			e.Observer.Subscribe(&protocol.SubscribeRequest{Channel: ch})
+		}
+		e.W.Settle()
+	}
 	var wg sync.WaitGroup
 	for _, cc := range e.Conns {
 		cc := cc
@@ -441,6 +460,9 @@ func (cc *CConn) Closed() bool {
 func (e *Env) Finish() {
 	for _, cc := range e.Conns {
 		_ = cc.Conn.CloseFn()
+	}
+	if e.Observer != nil {
+		_ = e.Observer.CloseFn()
 	}
 	e.W.Shutdown()
 }
